@@ -10,7 +10,7 @@ check_wrapper decides, path-sensitively, that a public boolean wrapper F
 """
 from . import guards
 from .flow import Flow
-from .ir import calls, strip_casts, ap, root_var, line, show, walk
+from .ir import calls, strip_casts, ap, root_var, line, show, walk, cv
 
 
 def norm_callee(name):
@@ -216,3 +216,27 @@ def check_wrapper_through(rep, rule, fn, native, **kw):
                         forbidden=kw.get("forbidden", ()), site="wire:%s:via:%s" % (native, h.name),
                         allow_zero_call_true=False)
     return ok1 and ok2
+
+
+def creation_attributes(unit, init_callee, attr_prefix, allowed):
+    """Calls of `init_callee (obj, attr)` in the unit's entry functions and, for each, the first attribute setter on that attribute
+    object that is not in `allowed` ({setter name: None (any value) | set of accepted constant values}):
+    [(function view, init call, offending setter call or None)]"""
+    out = []
+    for f in unit.roots():
+        for (b, i, c) in f.calls():
+            if c.get("callee") != init_callee or len(c.get("args", ())) < 2:
+                continue
+            bad = None
+            a1 = strip_casts(c["args"][1])
+            if not (cv(c["args"][1]) == 0 or (a1 is not None and cv(a1) == 0)):
+                av = root_var(a1)
+                for (b2, i2, c2) in f.calls():
+                    cn = c2.get("callee") or ""
+                    if not (cn.startswith(attr_prefix + "set") and c2.get("args") and root_var(c2["args"][0]) == av):
+                        continue
+                    if cn in allowed and (allowed[cn] is None or (len(c2["args"]) > 1 and cv(c2["args"][1]) in allowed[cn])):
+                        continue
+                    bad = bad or c2
+            out.append((f, c, bad))
+    return out
